@@ -20,6 +20,7 @@ use scryer_prolog::{LeafAnswer, Machine, MachineBuilder};
 
 mod canon;
 mod fam;
+mod fam_c33;
 
 pub fn unescape(s: &str) -> String {
     let mut out = String::with_capacity(s.len());
